@@ -270,10 +270,15 @@ func RunCheck(id, tier string, seed uint64, replay string) int {
 }
 
 func workerBin(p *Prop, root string) string {
-	if p.Race {
-		return filepath.Join(root, "bin", "vcheck-race")
+	// both binaries sit next to the running orchestrator (bin/ or an alternative build directory, see run.sh VERIF_REPO)
+	dir := filepath.Join(root, "bin")
+	if exe, err := os.Executable(); err == nil {
+		dir = filepath.Dir(exe)
 	}
-	return filepath.Join(root, "bin", "vcheck")
+	if p.Race {
+		return filepath.Join(dir, "vcheck-race")
+	}
+	return filepath.Join(dir, "vcheck")
 }
 
 func runBatch(p *Prop, root, scratch, tier string, seed uint64, b int) *batchResult {
